@@ -48,8 +48,15 @@ pub mod synth {
     #[quantity]
     #[unit(Piece, "pcs")]
     pub struct Count {}
+
+    /// a macro-defined quantity whose reference unit has an empty symbol: its
+    /// values display as the bare amount ("just the amount for unit-less values")
+    #[quantity]
+    #[ref_unit(Each, "")]
+    #[unit(Dozen, "dz", 12)]
+    pub struct Bare {}
 }
-use synth::{Count, Foo, Odd, Soda};
+use synth::{Bare, Count, Foo, Odd, Soda};
 
 // -------------------------------------------------------------------- amounts
 
@@ -312,6 +319,7 @@ pub static TABLE: &[TypeEntry] = &[
     entry!("synth::Odd", Odd),
     entry!("synth::Soda", Soda),
     entry!("synth::Count", Count),
+    entry!("synth::Bare", Bare),
     #[cfg(feature = "astro")]
     entry!("astro::Mass", aq::Mass),
     #[cfg(feature = "astro")]
